@@ -16,10 +16,40 @@
 #include <sys/wait.h>
 #include <errno.h>
 
+/* ---------------------------------------------------------------- optional pool backing (C14)
+ * With VF_POOL=static or VF_POOL=dynamic in the environment, blocks of the *configured* family are carved out of
+ * a real CC_StaticPool / CC_DynamicPool instead of libc malloc (the ledger bookkeeping is unchanged), so every
+ * engine's traces can be replayed with the container living on a pool: observations must not change. */
+#ifndef VF_NO_POOL
+#include "memory/cc_static_pool.c"
+#include "memory/cc_dynamic_pool.c"
+#define VF_SPOOL_BYTES (48u << 20)
+static uint8_t vf_spool_mem[VF_SPOOL_BYTES] __attribute__((aligned(16)));
+static uint8_t vf_spool_hdr[128] __attribute__((aligned(16)));
+static CC_StaticPool *vf_spool = NULL; static CC_DynamicPool *vf_dpool = NULL; static int vf_pool_mode = -1;
+static void vf_pool_init(void) {
+    const char *m = getenv("VF_POOL"); vf_pool_mode = 0;
+    if (m && !strcmp(m, "static")) { cc_static_pool_new(VF_SPOOL_BYTES, 0, vf_spool_mem, vf_spool_hdr, &vf_spool); vf_pool_mode = 1; }
+    else if (m && !strcmp(m, "dynamic")) {
+        CC_DynamicPoolConf c; cc_dynamic_pool_conf_init(&c); c.is_fixed = false; c.exp_factor = 1; c.is_packed = false; c.alignment_boundary = 16;
+        if (cc_dynamic_pool_new_conf(8u << 20, &c, &vf_dpool) == CC_OK) vf_pool_mode = 2; }
+}
+static void *vf_pool_get(size_t n) {
+    n = (n + 15) & ~(size_t)15; if (!n) n = 16;
+    return vf_pool_mode == 1 ? cc_static_pool_malloc(n, vf_spool) : cc_dynamic_pool_malloc(n, vf_dpool);
+}
+static void vf_pool_put(void *p) { if (vf_pool_mode == 1) cc_static_pool_free(p, vf_spool); else cc_dynamic_pool_free(p, vf_dpool); }
+#else
+static int vf_pool_mode = 0;
+static void vf_pool_init(void) {}
+static void *vf_pool_get(size_t n) { (void)n; return NULL; }
+static void vf_pool_put(void *p) { (void)p; }
+#endif
+
 /* ---------------------------------------------------------------- ledger */
 #define VF_MAXBLK 65536
 enum { TAG_CONF = 0, TAG_LIBC = 1 };
-typedef struct { void *p; size_t n; int tag; } vf_blk;
+typedef struct { void *p; size_t n; int tag; int pooled; } vf_blk;
 static vf_blk vf_live[VF_MAXBLK];
 static size_t vf_nlive = 0;
 static unsigned long long vf_nreq = 0;
@@ -37,11 +67,13 @@ static void *vf_alloc(int tag, size_t n, int zero) {
     vf_nreq++;
     if (vf_plan_pos < vf_plan_len) grant = (vf_plan[vf_plan_pos++] == '1');
     if (!grant || n > vf_limit) return NULL;
-    void *p = (malloc)(n ? n : 1);
-    if (!p) vf_die("host-oom");
+    if (vf_pool_mode < 0) vf_pool_init();
+    int pooled = (tag == TAG_CONF && vf_pool_mode > 0);
+    void *p = pooled ? vf_pool_get(n) : (malloc)(n ? n : 1);
+    if (!p) vf_die(pooled ? "pool-exhausted" : "host-oom");
     if (zero) memset(p, 0, n); else if (vf_poison) memset(p, 0xAB, n);
     if (vf_nlive >= VF_MAXBLK) vf_die("ledger-full");
-    vf_live[vf_nlive].p = p; vf_live[vf_nlive].n = n; vf_live[vf_nlive].tag = tag; vf_nlive++;
+    vf_live[vf_nlive].p = p; vf_live[vf_nlive].n = n; vf_live[vf_nlive].tag = tag; vf_live[vf_nlive].pooled = pooled; vf_nlive++;
     return p;
 }
 static void vf_release(int tag, void *p) {
@@ -50,8 +82,9 @@ static void vf_release(int tag, void *p) {
         if (vf_live[i].p == p) {
             if (vf_live[i].tag != tag) vf_die(tag == TAG_LIBC ? "cross-free: configured block released with libc free"
                                                               : "cross-free: libc block released with configured free");
+            int pooled = vf_live[i].pooled;
             vf_live[i] = vf_live[--vf_nlive];
-            (free)(p);
+            if (pooled) vf_pool_put(p); else (free)(p);
             return;
         }
     }
